@@ -546,6 +546,358 @@ fn inverse_clauses(s: &Section, lay: usize, o: &[X; 3], i: &[X; 3], j: &[X; 3], 
     }
 }
 
+// =================================================================================================
+// audit additions (round 2): rescaled / rational / far camera triples (exact), extreme magnitudes (floats),
+// every operand form of `V: Into<Vec3<T>>`, float and integer element types of the change-of-basis builders
+// =================================================================================================
+fn qp2(k: i32) -> Q { if k >= 0 { Q::int(1i128 << k) } else { Q::new(1, 1i128 << (-k)) } }
+fn p2(k: i32) -> f64 { f64::from_bits(((1023 + k as i64) as u64) << 52) } // exact 2^k, -1022 <= k <= 1023
+fn sdq(p: &P, c: Q) -> [Sd; 3] { [Sd::rat(Q::int(p[0] as i128).mul(c)), Sd::rat(Q::int(p[1] as i128).mul(c)), Sd::rat(Q::int(p[2] as i128).mul(c))] }
+fn scale_tr(m: &A<Sd, 4>, c: Q) -> A<Sd, 4> { let mut o = *m; let cs = Sd::rat(c); for i in 0..3 { o[i][3] = o[i][3] * cs; } o }
+
+/// (position scale, up scale, class) of the exact rescaling section
+fn exact_scales() -> Vec<(Q, Q, &'static str)> {
+    vec![(Q::new(1, 2), Q::ONE, "positions scaled down (|d| < 1 possible)"), (Q::ONE, Q::new(1, 3), "up scaled down"),
+         (Q::new(3, 7), Q::new(5, 2), "non-dyadic rational scales"), (Q::int(6), Q::new(1, 5), "positions scaled up, up down"),
+         (qp2(40), qp2(-40), "extreme: positions 2^40, up 2^-40"), (qp2(-40), qp2(40), "extreme: positions 2^-40, up 2^40"),
+         (qp2(-40), qp2(-40), "extreme: both 2^-40"), (qp2(20), qp2(20), "both 2^20")]
+}
+const FAR_EYES: [P; 4] = [[7, -11, 13], [-100, 3, 41], [12, 5, -9], [0, 0, 0]];
+const FAR_OFFS: [P; 5] = [[3, -4, 12], [1, 2, 2], [-6, 2, 3], [5, -7, 1], [0, -9, 40]];
+const FAR_UPS: [P; 5] = [[0, 1, 0], [3, 1, -2], [-1, 4, 8], [2, -3, 6], [0, 0, -1]];
+fn small_triples(th: bool) -> Vec<(P, P, P)> {
+    let mut v = Vec::new();
+    if th {
+        let (pairs, ups) = look_space(false);
+        for (e, t) in pairs { for u in &ups { v.push((e, t, *u)); } }
+    } else {
+        let mut offs: Vec<P> = cube(1).into_iter().filter(|o| *o != [0, 0, 0]).collect(); offs.extend(QUICK_EXTRA_UPS);
+        let mut ups = cube(1); ups.extend(QUICK_EXTRA_UPS);
+        for e in [[-2, 1, 0], [0, 0, 0], [1, -2, 1]] { for o in &offs { for u in &ups { v.push((e, [e[0] + o[0], e[1] + o[1], e[2] + o[2]], *u)); } } }
+    }
+    v
+}
+fn far_triples() -> Vec<(P, P, P)> {
+    let mut v = Vec::new();
+    for e in FAR_EYES { for o in FAR_OFFS { for u in FAR_UPS { v.push((e, [e[0] + o[0], e[1] + o[1], e[2] + o[2]], u)); } } }
+    v
+}
+
+/// one (triple, scales) case of the exact rescaling section: the literal clauses on the scaled inputs, then the uniqueness self-check
+fn exact_case(s: &Section, e: &P, t: &P, up: &P, cp: Q, cu: Q) {
+    let (es, ts, us) = (sdq(e, cp), sdq(t, cp), sdq(up, cu));
+    let inp = || json!({"eye": e, "target": t, "up": up, "positions_times": jd(&cp), "up_times": jd(&cu)});
+    let w = weight(e, t, up);
+    let (rv_lh, rm_lh, rho1, _) = ref_view(e, t, up, true);
+    let (rv_rh, rm_rh, _, _) = ref_view(e, t, up, false);
+    let refs = [scale_tr(&rv_lh, cp), scale_tr(&rv_rh, cp), scale_tr(&rm_lh, cp), scale_tr(&rm_rh, cp)];
+    let dist = rho1 * Sd::rat(cp);
+    let mut res: [[Option<A<Sd, 4>>; 6]; 2] = [[None; 6]; 2];
+    for lay in 0..2 { for f in 0..6 { res[lay][f] = s.call(&site(lay, f), inp, || call6::<Sd>(lay, f, &es, &ts, &us)); } }
+    for lay in 0..2 { for f in 0..6 {
+        let Some(m) = res[lay][f] else { continue };
+        let mut fails: Vec<&'static str> = Vec::new();
+        let hand = [Hand::Lh, Hand::Rh, Hand::Lh, Hand::Rh, Hand::Either, Hand::Either][f];
+        let verdict = catch(|| {
+            if f == 0 || f == 1 || f == 4 { view_clauses(&m, &es, &ts, &us, dist, hand, &mut fails); }
+            else { let vf = [0, 1, 0, 1, 4, 4][f]; if let Some(v) = res[lay][vf] { model_clauses(&m, &v, &es, &mut fails); } }
+        });
+        match verdict {
+            Err(Caught::Unmodelled(why)) => { s.unmodelled(why); continue; }
+            Err(Caught::Panic(p)) => { s.rep.machinery_error(format!("oracle panicked: {}", p)); continue; }
+            Ok(()) => {}
+        }
+        for cl in &fails { emit(s, &site(lay, f), cl, w, || json!({"input": inp(), "got": jsd4(&m), "eye_target_distance": jd(&dist)})); }
+        if fails.is_empty() {
+            let view_is_ref = |vf: usize| res[lay][vf] == Some(refs[0]) || res[lay][vf] == Some(refs[1]);
+            let unique = match f { 0 => m == refs[0], 1 => m == refs[1], 4 => m == refs[0] || m == refs[1],
+                2 => !view_is_ref(0) || m == refs[2], 3 => !view_is_ref(1) || m == refs[3], _ => !view_is_ref(4) || m == refs[2] || m == refs[3] };
+            if !unique { s.rep.machinery_error(format!("oracle accepted a matrix different from the rescaled Gram-Schmidt reference: {} on {}", site(lay, f), inp())); }
+        }
+    } }
+}
+fn look_exact_scaled(s: &Section) {
+    let scales = exact_scales();
+    let mut req: Vec<&str> = scales.iter().map(|x| x.2).collect(); req.push("far irregular integer triple (unscaled)"); req.push("scaled view shorter than 1");
+    s.require_classes(&req);
+    let triples = small_triples(s.thorough());
+    let far = far_triples();
+    let ok = |(e, t, u): &(P, P, P)| cross_i(u, &sub_i(t, e)) != [0, 0, 0];
+    triples.par_iter().filter(|x| ok(x)).for_each(|(e, t, up)| {
+        let d = sub_i(t, e);
+        let mut short = 0u64;
+        for (cp, cu, _) in &scales {
+            exact_case(s, e, t, up, *cp, *cu);
+            if Q::int(dot_i(&d, &d) as i128).mul(*cp).mul(*cp).cmp(Q::ONE) == Ordering::Less { short += 1; }
+        }
+        s.evals(12 * scales.len() as u64, 12 * scales.len() as u64);
+        s.class_n("scaled view shorter than 1", short);
+    });
+    let n = triples.iter().filter(|x| ok(x)).count() as u64;
+    for (_, _, c) in &scales { s.class_n(c, n); }
+    far.par_iter().filter(|x| ok(x)).for_each(|(e, t, up)| {
+        exact_case(s, e, t, up, Q::ONE, Q::ONE);
+        exact_case(s, e, t, up, Q::new(1, 64), Q::new(1, 9));
+        s.evals(24, 24);
+        s.class_n("far irregular integer triple (unscaled)", 1);
+    });
+    s.meta("alphabet", json!({"box_triples": n, "scale_pairs (positions, up)": scales.iter().map(|(a, b, _)| json!([jd(a), jd(b)])).collect::<Vec<_>>(),
+        "far_eyes": FAR_EYES, "far_offsets": FAR_OFFS, "far_ups": FAR_UPS, "far_scale_pairs": ["1, 1", "1/64, 1/9"]}));
+    s.sample(json!({"eye": [-2, 1, 0], "target": [-1, 1, 1], "up": [0, 1, 0], "positions_times": "1/2", "look_at_lh (row-major, exact)": jsd4(&call6::<Sd>(0, 0, &sdq(&[-2, 1, 0], Q::new(1, 2)), &sdq(&[-1, 1, 1], Q::new(1, 2)), &sdq(&[0, 1, 0], Q::ONE)))}));
+}
+
+/// floats at extreme magnitudes: positions * 2^kp, up * 2^ku (exact scalings of the integer triple); the reference is the
+/// exact Gram-Schmidt matrix of the unscaled triple with its translation column times 2^kp
+fn look_float_scaled<T: Fl>(s: &Section) {
+    s.require_classes(&["positions tiny", "positions huge", "up tiny", "up huge", "moderate non-integer (2^-3)", "kappa > 1.5", "eye off origin"]);
+    let big = if T::NAME == "f32" { 40 } else { 400 };
+    // quick: the quick space x the coarse exponent grid; thorough: the quick space x the fine grid, then the thorough space x the coarse grid
+    let coarse: (Vec<i32>, Vec<i32>) = (vec![-big, -3, 5, big], vec![-big, 0, big]);
+    let fine: (Vec<i32>, Vec<i32>) = (vec![-big, -big / 2, -3, 0, 5, big / 2, big], vec![-big, -big / 2, -2, 0, big / 2, big]);
+    let passes: Vec<(bool, (Vec<i32>, Vec<i32>))> = if s.thorough() { vec![(false, fine.clone()), (true, coarse.clone())] } else { vec![(false, coarse.clone())] };
+    let worst = std::sync::Mutex::new(0.0f64);
+    for (space_th, (kps, kus)) in &passes {
+    let (pairs, ups) = look_space(*space_th);
+    pairs.par_iter().for_each(|(e, t)| {
+        let mut cnt = Cnt::default();
+        let d = sub_i(t, e);
+        let mut wl = 0.0f64;
+        for up in &ups {
+            let cr = cross_i(up, &d);
+            if cr == [0, 0, 0] { continue; }
+            let (rv_lh, rm_lh, _, _) = ref_view(e, t, up, true);
+            let (rv_rh, rm_rh, _, _) = ref_view(e, t, up, false);
+            let refs = [shadow4(&rv_lh), shadow4(&rv_rh), shadow4(&rm_lh), shadow4(&rm_rh)];
+            let kappa = ((dot_i(up, up) * dot_i(&d, &d)) as f64 / dot_i(&cr, &cr) as f64).sqrt();
+            let eye1 = e.iter().map(|c| c.abs() as f64).sum::<f64>();
+            for &kp in kps.iter() { for &ku in kus.iter() {
+                if kp == 0 && ku == 0 { continue; } // the unscaled triple is the float tier above
+                cnt.triples += 1; cnt.nontrivial += 1;
+                if kp <= -big / 2 { cnt.hit("positions tiny"); } if kp >= big / 2 { cnt.hit("positions huge"); }
+                if ku <= -big / 2 { cnt.hit("up tiny"); } if ku >= big / 2 { cnt.hit("up huge"); }
+                if kp == -3 { cnt.hit("moderate non-integer (2^-3)"); }
+                if kappa > 1.5 { cnt.hit("kappa > 1.5"); } if *e != [0, 0, 0] { cnt.hit("eye off origin"); }
+                let (sp, su) = (p2(kp), p2(ku));
+                let cv = |p: &P, sc: f64| [T::f(p[0] as f64 * sc), T::f(p[1] as f64 * sc), T::f(p[2] as f64 * sc)];
+                let (ef, tf, uf) = (cv(e, sp), cv(t, sp), cv(up, su));
+                let inp = || json!({"eye": e, "target": t, "up": up, "positions_times_2^": kp, "up_times_2^": ku});
+                for lay in 0..2 { for f in 0..6 {
+                    let st = format!("{}<{}>", site(lay, f), T::NAME);
+                    let Some(g) = s.call(&st, inp, || call6::<T>(lay, f, &ef, &tf, &uf)) else { continue };
+                    let err = |want: &A<f64, 4>| {
+                        let mut ok = g[3][0].d() == 0.0 && g[3][1].d() == 0.0 && g[3][2].d() == 0.0 && g[3][3].d() == 1.0;
+                        let mut wst = 0.0f64;
+                        for i in 0..3 { for j in 0..4 {
+                            let (wv, sc) = if j < 3 { (want[i][j], kappa) } else { (want[i][3] * sp, kappa * eye1 * sp) };
+                            if !g[i][j].close(wv, sc) { ok = false; }
+                            if sc > 0.0 { let dd = (g[i][j].d() - wv).abs() / sc; if dd > wst || dd.is_nan() { wst = dd; } }
+                        } }
+                        (ok, wst) };
+                    let cands: &[usize] = match f { 0 => &[0], 1 => &[1], 2 => &[2], 3 => &[3], 4 => &[0, 1], _ => &[2, 3] };
+                    let rs: Vec<(bool, f64)> = cands.iter().map(|&c| err(&refs[c])).collect();
+                    let best = rs.iter().cloned().fold((false, f64::INFINITY), |a, b| if b.0 && !a.0 { b } else if a.0 && !b.0 { a } else if b.1 < a.1 { b } else { a });
+                    if best.0 { if best.1 > wl { wl = best.1; } } else {
+                        emit(s, &st, "wrong-entry-at-extreme-scale", weight(e, t, up), || { let gd: Vec<Vec<f64>> = g.iter().map(|r| r.iter().map(|x| x.d()).collect()).collect();
+                            json!({"input": inp(), "got": gd, "want (exact reference of the unscaled triple, rounded; translation column times 2^kp)": refs[cands[0]], "tolerance": "256 eps * kappa (linear part), 256 eps * kappa * |eye|_1 * 2^kp (translation), last row exact", "kappa": kappa}) });
+                    }
+                } }
+            } }
+        }
+        { let mut g = worst.lock().unwrap(); if wl > *g { *g = wl; } }
+        cnt.flush(s, 12);
+    });
+    }
+    let eps = if T::NAME == "f64" { f64::EPSILON } else { f32::EPSILON as f64 };
+    s.meta("worst_observed_error_in_eps_times_scale", json!(*worst.lock().unwrap() / eps));
+    s.meta("allowed_eps_times_scale", json!(vx::fl::K));
+    s.meta("passes (space, position exponents, up exponents)", json!(passes.iter().map(|(sp, (a, b))| json!([if *sp { SPACE_THOROUGH } else { SPACE_QUICK }, a, b])).collect::<Vec<_>>()));
+    s.sample(json!({"eye": [1, -2, 0], "target": [2, 0, 1], "up": [0, 1, 1], "positions_times_2^": big, "up_times_2^": -big, "type": T::NAME,
+        "look_at_rh (row-major)": call6::<T>(0, 1, &[T::f(p2(big)), T::f(-2.0 * p2(big)), T::f(0.0)], &[T::f(2.0 * p2(big)), T::f(0.0), T::f(p2(big))], &[T::f(0.0), T::f(p2(-big)), T::f(p2(-big))]).iter().map(|r| r.iter().map(|x| x.d()).collect::<Vec<f64>>()).collect::<Vec<_>>()}));
+}
+
+// ---- operand forms -----------------------------------------------------------------------------------
+const FORMS: [&str; 4] = ["Vec4", "[T; 3]", "(T, T, T)", "Vec2"];
+macro_rules! six_on { ($M:ident, $dec:ident, $f:expr, $e:expr, $t:expr, $u:expr) => { match $f {
+    0 => $dec(&$M::Mat4::look_at_lh($e, $t, $u)), 1 => $dec(&$M::Mat4::look_at_rh($e, $t, $u)),
+    2 => $dec(&$M::Mat4::model_look_at_lh($e, $t, $u)), 3 => $dec(&$M::Mat4::model_look_at_rh($e, $t, $u)),
+    4 => $dec(&$M::Mat4::look_at($e, $t, $u)), _ => $dec(&$M::Mat4::model_look_at($e, $t, $u)) } } }
+/// `w` = the fourth components given to the three Vec4 operands (dropped by the conversion); Vec2 drops z (callers pass z = 0)
+fn call6_form<T: Real + Add<T, Output = T> + MulAdd<T, T, Output = T>>(lay: usize, f: usize, form: usize, e: &[T; 3], t: &[T; 3], u: &[T; 3], w: &[T; 3]) -> A<T, 4> {
+    let q4 = |a: &[T; 3], w: T| Vec4 { x: a[0], y: a[1], z: a[2], w };
+    let tu = |a: &[T; 3]| (a[0], a[1], a[2]);
+    let q2 = |a: &[T; 3]| Vec2 { x: a[0], y: a[1] };
+    match (lay, form) {
+        (0, 0) => six_on!(rm, dr4, f, q4(e, w[0]), q4(t, w[1]), q4(u, w[2])),
+        (1, 0) => six_on!(cm, dc4, f, q4(e, w[0]), q4(t, w[1]), q4(u, w[2])),
+        (0, 1) => six_on!(rm, dr4, f, *e, *t, *u),
+        (1, 1) => six_on!(cm, dc4, f, *e, *t, *u),
+        (0, 2) => six_on!(rm, dr4, f, tu(e), tu(t), tu(u)),
+        (1, 2) => six_on!(cm, dc4, f, tu(e), tu(t), tu(u)),
+        (0, 3) => six_on!(rm, dr4, f, q2(e), q2(t), q2(u)),
+        (1, 3) => six_on!(cm, dc4, f, q2(e), q2(t), q2(u)),
+        _ => unreachable!(),
+    }
+}
+macro_rules! basis_on { ($M:ident, $dec:ident, $b:expr, $o:expr, $i:expr, $j:expr, $k:expr) => { if $b { $dec(&$M::Mat4::basis_to_local($o, $i, $j, $k)) } else { $dec(&$M::Mat4::local_to_basis($o, $i, $j, $k)) } } }
+fn basis_form<T: Real + Add<T, Output = T>>(lay: usize, b2l_: bool, form: usize, o: &[T; 3], i: &[T; 3], j: &[T; 3], k: &[T; 3], w: &[T; 4]) -> A<T, 4> {
+    let q4 = |a: &[T; 3], w: T| Vec4 { x: a[0], y: a[1], z: a[2], w };
+    let tu = |a: &[T; 3]| (a[0], a[1], a[2]);
+    match (lay, form) {
+        (0, 0) => basis_on!(rm, dr4, b2l_, q4(o, w[0]), q4(i, w[1]), q4(j, w[2]), q4(k, w[3])),
+        (1, 0) => basis_on!(cm, dc4, b2l_, q4(o, w[0]), q4(i, w[1]), q4(j, w[2]), q4(k, w[3])),
+        (0, 1) => basis_on!(rm, dr4, b2l_, *o, *i, *j, *k),
+        (1, 1) => basis_on!(cm, dc4, b2l_, *o, *i, *j, *k),
+        (0, 2) => basis_on!(rm, dr4, b2l_, tu(o), tu(i), tu(j), tu(k)),
+        (1, 2) => basis_on!(cm, dc4, b2l_, tu(o), tu(i), tu(j), tu(k)),
+        _ => unreachable!(),
+    }
+}
+/// reference change-of-basis matrices from the definition: L = [i j k | o], B = [rows i, j, k | -i.o, -j.o, -k.o] (= L^-1 iff orthonormal)
+fn ref_l2b(o: &[X; 3], i: &[X; 3], j: &[X; 3], k: &[X; 3]) -> A<X, 4> {
+    let (z, one) = (qi(0), qi(1));
+    [[i[0], j[0], k[0], o[0]], [i[1], j[1], k[1], o[1]], [i[2], j[2], k[2], o[2]], [z, z, z, one]]
+}
+fn ref_b2l(o: &[X; 3], i: &[X; 3], j: &[X; 3], k: &[X; 3]) -> A<X, 4> {
+    let (z, one) = (qi(0), qi(1));
+    [[i[0], i[1], i[2], -dotn(i, o)], [j[0], j[1], j[2], -dotn(j, o)], [k[0], k[1], k[2], -dotn(k, o)], [z, z, z, one]]
+}
+
+fn operand_forms(s: &Section) {
+    s.require_classes(&["Vec4 with point/direction w (1,1,0)", "Vec4 with junk w", "[T; 3]", "(T, T, T)", "Vec2 (z = 0 plane)", "basis: mirror", "basis: proper"]);
+    // look-at
+    let triples: Vec<(P, P, P)> = small_triples(false).into_iter().filter(|(e, t, u)| cross_i(u, &sub_i(t, e)) != [0, 0, 0]).collect();
+    triples.par_iter().for_each(|(e, t, up)| {
+        let (es, ts, us) = (sd3(e), sd3(t), sd3(up));
+        let (rv_lh, rm_lh, _, _) = ref_view(e, t, up, true);
+        let (rv_rh, rm_rh, _, _) = ref_view(e, t, up, false);
+        let refs = [rv_lh, rv_rh, rm_lh, rm_rh];
+        let planar = e[2] == 0 && t[2] == 0 && up[2] == 0;
+        let ws: [[Sd; 3]; 2] = [[Sd::int(1), Sd::int(1), Sd::ZERO], [Sd::int(7), Sd::int(-3), Sd::int(5)]];
+        let mut n = [0u64; 5];
+        for form in 0..4 { for (wi, w) in ws.iter().enumerate() {
+            if form != 0 && wi == 1 { continue; }
+            if form == 3 && !planar { continue; }
+            n[if form == 0 { wi } else { form + 1 }] += 1;
+            let inp = || json!({"eye": e, "target": t, "up": up, "operand_type": FORMS[form], "w_components (Vec4 only)": jd(w)});
+            for lay in 0..2 { for f in 0..6 {
+                let st = format!("{}({})", site(lay, f), FORMS[form]);
+                let Some(g) = s.call(&st, inp, || call6_form::<Sd>(lay, f, form, &es, &ts, &us, w)) else { continue };
+                let cands: &[usize] = match f { 0 => &[0], 1 => &[1], 2 => &[2], 3 => &[3], 4 => &[0, 1], _ => &[2, 3] };
+                if !cands.iter().any(|&c| refs[c] == g) { emit(s, &st, "wrong-matrix-for-operand-form", weight(e, t, up), || json!({"input": inp(), "got": jsd4(&g), "want (Gram-Schmidt reference)": jsd4(&refs[cands[0]])})); }
+            } }
+        } }
+        let tot: u64 = n.iter().sum();
+        s.evals(12 * tot, 12 * tot);
+        s.class_n("Vec4 with point/direction w (1,1,0)", n[0]); s.class_n("Vec4 with junk w", n[1]); s.class_n("[T; 3]", n[2]); s.class_n("(T, T, T)", n[3]); s.class_n("Vec2 (z = 0 plane)", n[4]);
+    });
+    // change of basis
+    let axes: Vec<[X; 3]> = unit_axes().into_iter().enumerate().filter(|(n, _)| s.thorough() || n % 8 == 1).map(|(_, a)| a).collect();
+    let circ = circle_points();
+    for a in &axes { for (c, sn) in &circ { for flip in [1i128, -1] {
+        let r = rodrigues(a, *c, *sn);
+        let (i, j, k) = ([r[0][0], r[1][0], r[2][0]], [r[0][1], r[1][1], r[2][1]], [r[0][2] * qi(flip), r[1][2] * qi(flip), r[2][2] * qi(flip)]);
+        let o = [qi(2), qi(-1), q(3, 2)];
+        s.class(if flip == 1 { "basis: proper" } else { "basis: mirror" });
+        let w = [qi(1), qi(0), qi(-4), qi(9)];
+        for form in 0..3 { for lay in 0..2 { for b in [false, true] {
+            s.eval(true);
+            let name = if b { "basis_to_local" } else { "local_to_basis" };
+            let st = format!("{}({})", bsite(lay, name), FORMS[form]);
+            let inp = || json!({"origin": jxs(&o), "i": jxs(&i), "j": jxs(&j), "k": jxs(&k), "operand_type": FORMS[form], "w_components (Vec4 only)": jxs(&w)});
+            let Some(g) = s.call(&st, inp, || basis_form::<X>(lay, b, form, &o, &i, &j, &k, &w)) else { continue };
+            let want = if b { ref_b2l(&o, &i, &j, &k) } else { ref_l2b(&o, &i, &j, &k) };
+            if g != want { emit(s, &st, "wrong-matrix-for-operand-form", 0, || json!({"input": inp(), "got": jmat(&g), "want": jmat(&want)})); }
+        } } }
+    } } }
+    s.meta("alphabet", json!({"look_at_triples": triples.len(), "forms": FORMS, "basis_axes": axes.len(), "angles": circ.len()}));
+    s.sample(json!({"eye (Vec4)": [1, -2, 1, 7], "target (Vec4)": [2, -2, 0, -3], "up (Vec4)": [0, 1, 0, 5], "note": "fourth components are dropped by From<Vec4> for Vec3; the matrix must be the Vec3 one"}));
+}
+
+// ---- change of basis on float and integer element types ---------------------------------------------------
+fn basis_float<T: Fl>(s: &Section) {
+    s.require_classes(&["proper (det +1)", "mirror (det -1)", "origin tiny", "origin huge", "origin non-integer (2^-3)", "origin zero"]);
+    let big = if T::NAME == "f32" { 40 } else { 400 };
+    let ks: Vec<i32> = if s.thorough() { vec![-big, -big / 2, -3, 0, 7, big / 2, big] } else { vec![-big, -3, 0, big] };
+    let axes: Vec<[X; 3]> = unit_axes().into_iter().enumerate().filter(|(n, _)| s.thorough() || n % 4 == 2).map(|(_, a)| a).collect();
+    let circ = circle_points();
+    let origins: Vec<[i32; 3]> = grid3(&[-1, 0, 2]);
+    let work: Vec<(usize, usize)> = (0..axes.len()).flat_map(|a| (0..circ.len()).map(move |c| (a, c))).collect();
+    let worst = std::sync::Mutex::new(0.0f64);
+    work.par_iter().for_each(|&(ai, ci)| {
+        let r = rodrigues(&axes[ai], circ[ci].0, circ[ci].1);
+        let mut cnt = Cnt::default();
+        let mut wl = 0.0f64;
+        for flip in [1.0f64, -1.0] {
+            // the basis actually handed to vek: the rational rotation rounded once to T
+            let col = |c: usize, sg: f64| [T::f(r[0][c].shadow() * sg), T::f(r[1][c].shadow() * sg), T::f(r[2][c].shadow() * sg)];
+            let (i, j, k) = (col(0, 1.0), col(1, 1.0), col(2, flip));
+            let b = [i, j, k];
+            for o in &origins { for &kk in &ks {
+                let sc = p2(kk);
+                let of = [T::f(o[0] as f64 * sc), T::f(o[1] as f64 * sc), T::f(o[2] as f64 * sc)];
+                cnt.triples += 1; cnt.nontrivial += 1;
+                cnt.hit(if flip > 0.0 { "proper (det +1)" } else { "mirror (det -1)" });
+                if *o == [0, 0, 0] { cnt.hit("origin zero"); } else { if kk <= -big / 2 { cnt.hit("origin tiny"); } if kk >= big / 2 { cnt.hit("origin huge"); } if kk == -3 { cnt.hit("origin non-integer (2^-3)"); } }
+                let inp = || json!({"axis": jxs(&axes[ai]), "cos": jx(circ[ci].0), "sin": jx(circ[ci].1), "mirror_k": flip < 0.0, "origin": o, "origin_times_2^": kk,
+                    "i": i.iter().map(|x| x.d()).collect::<Vec<f64>>(), "j": j.iter().map(|x| x.d()).collect::<Vec<f64>>(), "k": k.iter().map(|x| x.d()).collect::<Vec<f64>>()});
+                for lay in 0..2 {
+                    // local_to_basis: the 12 inputs land in their entries unchanged (T: Zero + One admits nothing else), last row 0 0 0 1
+                    let st = format!("{}<{}>", bsite(lay, "local_to_basis"), T::NAME);
+                    if let Some(g) = s.call(&st, inp, || l2b::<T>(lay, &of, &i, &j, &k)) {
+                        let mut ok = g[3][0].d() == 0.0 && g[3][1].d() == 0.0 && g[3][2].d() == 0.0 && g[3][3].d() == 1.0;
+                        for rr in 0..3 { for c in 0..3 { if g[rr][c].d() != b[c][rr].d() { ok = false; } } if g[rr][3].d() != of[rr].d() { ok = false; } }
+                        if !ok { emit(s, &st, "wrong-entry", 0, || json!({"input": inp(), "got": g.iter().map(|r| r.iter().map(|x| x.d()).collect::<Vec<f64>>()).collect::<Vec<_>>()})); }
+                    }
+                    // basis_to_local: rows i, j, k within 256 eps; translation -row.origin (exact dot product of the float inputs, rounded once) within 256 eps * sum |row_c origin_c|
+                    let st = format!("{}<{}>", bsite(lay, "basis_to_local"), T::NAME);
+                    if let Some(g) = s.call(&st, inp, || b2l::<T>(lay, &of, &i, &j, &k)) {
+                        let mut ok = g[3][0].d() == 0.0 && g[3][1].d() == 0.0 && g[3][2].d() == 0.0 && g[3][3].d() == 1.0;
+                        for rr in 0..3 {
+                            for c in 0..3 { if !g[rr][c].close(b[rr][c].d(), 1.0) { ok = false; } }
+                            let mut acc = Q::ZERO; let mut mag = 0.0f64;
+                            for c in 0..3 { acc = acc.add(vx::fl::qf(b[rr][c].d()).mul(Q::int(o[c] as i128))); mag += (b[rr][c].d() * o[c] as f64).abs(); }
+                            let want = -acc.to_f64() * sc;
+                            if !g[rr][3].close(want, mag * sc) { ok = false; }
+                            if mag > 0.0 { let dd = (g[rr][3].d() - want).abs() / (mag * sc); if dd > wl || dd.is_nan() { wl = dd; } }
+                        }
+                        if !ok { emit(s, &st, "wrong-entry", 0, || json!({"input": inp(), "got": g.iter().map(|r| r.iter().map(|x| x.d()).collect::<Vec<f64>>()).collect::<Vec<_>>(), "tolerance": "256 eps (rows), 256 eps * sum |row_c origin_c| (translation), last row exact"})); }
+                    }
+                }
+            } }
+        }
+        { let mut g = worst.lock().unwrap(); if wl > *g { *g = wl; } }
+        cnt.flush(s, 4);
+    });
+    let eps = if T::NAME == "f64" { f64::EPSILON } else { f32::EPSILON as f64 };
+    s.meta("worst_observed_translation_error_in_eps_times_scale", json!(*worst.lock().unwrap() / eps));
+    s.meta("alphabet", json!({"axes": axes.len(), "angles": circ.len(), "mirror": 2, "origins": origins.len(), "origin_exponents": ks, "layouts": 2}));
+    s.sample(json!({"axis": jxs(&axes[0]), "cos_sin": [jx(circ[3].0), jx(circ[3].1)], "type": T::NAME, "origin": [2, -1, 2], "origin_times_2^": -big}));
+}
+trait IntEl: Copy + Zero + One + PartialEq + fmt::Debug + Send + Sync + 'static { const NAME: &'static str; fn alphabet() -> Vec<Self>; }
+impl IntEl for i32 { const NAME: &'static str = "i32"; fn alphabet() -> Vec<i32> { vec![i32::MIN, -7, 0, 1, 3, i32::MAX] } }
+impl IntEl for u8 { const NAME: &'static str = "u8"; fn alphabet() -> Vec<u8> { vec![0, 1, 2, 9, 128, 255] } }
+impl IntEl for i64 { const NAME: &'static str = "i64"; fn alphabet() -> Vec<i64> { vec![i64::MIN, -5, 0, 1, 11, i64::MAX] } }
+fn l2b_integers<T: IntEl>(s: &Section) {
+    // every one of the 12 inputs takes every alphabet value while the others hold pairwise distinct-as-possible fillers
+    let al = T::alphabet();
+    for slot in 0..12 { for (vi, v) in al.iter().enumerate() {
+        let mut a = [T::zero(); 12];
+        for n in 0..12 { a[n] = al[(n + vi + 1 + n / 6) % al.len()]; }
+        a[slot] = *v;
+        let (o, i, j, k) = ([a[0], a[1], a[2]], [a[3], a[4], a[5]], [a[6], a[7], a[8]], [a[9], a[10], a[11]]);
+        for lay in 0..2 {
+            s.eval(true);
+            s.class(T::NAME);
+            let st = format!("{}<{}>", bsite(lay, "local_to_basis"), T::NAME);
+            let inp = || json!({"origin": jd(&o), "i": jd(&i), "j": jd(&j), "k": jd(&k)});
+            if let Some(g) = s.call(&st, inp, || l2b::<T>(lay, &o, &i, &j, &k)) {
+                let want = [[i[0], j[0], k[0], o[0]], [i[1], j[1], k[1], o[1]], [i[2], j[2], k[2], o[2]], [T::zero(), T::zero(), T::zero(), T::one()]];
+                if g != want { emit(s, &st, "wrong-entry", 0, || json!({"input": inp(), "got": jd(&g), "want": jd(&want)})); }
+            }
+        }
+    } }
+}
+
 fn main() {
     let rep = Report::start("C09", "exploration");
     let th = rep.thorough();
@@ -595,7 +947,12 @@ fn main() {
         s.sample(json!({"builder": "basis_to_local", "inputs": "12 degree-1 variables", "measured_entry_degree": db}));
         if dl > 1 || db > 2 { s.degrade("measured degree above the one the lattice orders below are derived from"); }
     });
-    let (dl, db) = *degs.lock().unwrap();
+    let (dl_measured, db_measured) = *degs.lock().unwrap();
+    // robustness (audit round 2): a builder that is not branch-free ring arithmetic measures as degree 99, which used to turn the two
+    // lattices below into L(15,102) / L(7,300) (the run never ended instead of judging). Fall back to the nominal degrees (1, 2) and
+    // mark the sections as no longer complete; on the unchanged tree nothing changes.
+    let premise_ok = dl_measured <= 1 && db_measured <= 2;
+    let (dl, db) = if premise_ok { (dl_measured, db_measured) } else { (1, 2) };
 
     // ---- 4. local_to_basis as a polynomial identity --------------------------------------------------
     let extra = if th { 4 } else { 2 };
@@ -604,6 +961,7 @@ fn main() {
         "all points of the simplex lattice L(15, D): 12 coordinates of (origin, i, j, k) and 3 of a point p, small non-negative integers with sum <= D; the claim M (p,1) = origin + p_x i + p_y j + p_z k is a polynomial identity of degree (measured entry degree 1) + 1 = 2, so D >= 2 decides it for all real inputs, orthonormal or not; run at D = 2+2 (quick) / 2+4 (thorough); clauses: last row (0,0,0,1), M(0,1) = (origin,1), M(e_x,1) = (origin+i,1), M(e_y,1) = (origin+j,1), M(e_z,1) = (origin+k,1), general p; both layouts; non-trivial: origin != 0 and at least one basis vector != 0", true, true, |s| {
         s.require_classes(&["origin off zero", "skew (non-orthogonal) basis", "general point"]);
         if dl + 1 > d_map { s.degrade("lattice order below the degree"); }
+        if !premise_ok { s.degrade("premise section failed: lattice order derived from the nominal degrees (1, 2); bounded evidence only"); }
         par_lattice(15, d_map, |a| {
             let (o, i, j, k, p) = (xs(&a[0..3]), xs(&a[3..6]), xs(&a[6..9]), xs(&a[9..12]), xs(&a[12..15]));
             let nz = a[0..3].iter().any(|&v| v != 0) && a[3..12].iter().any(|&v| v != 0);
@@ -631,6 +989,7 @@ fn main() {
         "all points (a,b,c,d,o_x,o_y,o_z) of the simplex lattice L(7, D): the basis is the columns of the rotation of the quaternion (w,x,y,z) = (a+1,b,c,d), R = N(w,x,y,z)/n with n = w^2+x^2+y^2+z^2 >= 1 on the lattice, and its mirror image (k -> -k), which together parametrise all of O(3); origin (o_x,o_y,o_z). With the measured entry degrees dB = 2, dL = 1 (premise section: polynomial, division-free) every input times n is a polynomial of degree <= 3, so n^(dB+dL) * (B L - I) and n^(dB+dL) * (L B - I) are polynomials of degree <= 3 (dB+dL) = 9 in the 7 variables; they vanish on L(7, 9) (run at 9, thorough 11) hence identically, i.e. for every real quaternion with n != 0 = every rotation, and every origin. Oracle self-check: R^T R = I, det = +-1 (machinery error otherwise). Products are formed by the reference mmul on the decoded arrays; both layouts; the local_to_basis clauses are re-checked on these inputs; non-trivial: rotation != identity and origin != 0", true, true, |s| {
         s.require_classes(&["proper (det +1)", "mirror (det -1)", "origin off zero", "rotation about a skew axis"]);
         if 3 * (dl + db) > d_inv { s.degrade("lattice order below the degree"); }
+        if !premise_ok { s.degrade("premise section failed: lattice order derived from the nominal degrees (1, 2); bounded evidence only"); }
         par_lattice(7, d_inv, |a| {
             let (w, x, y, z) = (qi(a[0] as i128 + 1), qi(a[1] as i128), qi(a[2] as i128), qi(a[3] as i128));
             let n = w * w + x * x + y * y + z * z;
@@ -683,6 +1042,32 @@ fn main() {
         });
         s.meta("alphabet", json!({"axes": axes.len(), "angles": circ.len(), "mirror": 2, "origins": origins.len(), "layouts": 2}));
         s.sample(json!({"axis": jxs(&axes[1]), "cos_sin": [jx(circ[4].0), jx(circ[4].1)], "rotation": jmat(&rodrigues(&axes[1], circ[4].0, circ[4].1))}));
+    });
+
+    // ---- 7. look-at, exact, rescaled / rational / far inputs -------------------------------------------
+    rep.section("look-at: exact, rational and rescaled camera triples (scale laws) and far irregular triples",
+        "the quantifier's coordinates are rational, not integer: every triple of a box (quick: eye in {(-2,1,0),(0,0,0),(1,-2,1)}, target-eye in {-1..1}^3 \\ 0 + the six longer vectors, up in {-1..1}^3 + the six longer vectors; thorough: the whole quick space of the first look-at section) with eye and target multiplied by c_p and up by c_u for every (c_p, c_u) of meta.scale_pairs (1/2, 1/3, 3/7 & 5/2, 6 & 1/5, 2^+-40 in opposite and equal directions, 2^20), and 4 x 5 x 5 far irregular integer triples (coordinates up to 100, unscaled and times (1/64, 1/9)); the six builders x both layouts run on the exact surd field; the literal clauses of the first look-at section are evaluated on the scaled inputs (distance = c_p |target-eye|); an accepted matrix must equal the Gram-Schmidt reference of the unscaled triple with its translation column times c_p (machinery error otherwise); integer triples can never have 0 < |target-eye| < 1 or |up| < 1, these can; non-trivial: all",
+        true, false, look_exact_scaled);
+
+    // ---- 8. look-at, floats at extreme magnitudes ---------------------------------------------------
+    let rule_fs = "the triples of the float tier with eye and target multiplied by 2^kp and up by 2^ku (exact in the float type; f32: kp in {-40,-3,5,40}, ku in {-40,0,40}; f64: kp in {-400,-3,5,400}, ku in {-400,0,400}; thorough: the quick space over the finer grid that adds +-20 / +-200, 0 and -2, then the thorough space over the coarse grid; (0,0) is the float tier itself): a look-at matrix does not depend on |up| and depends on the position scale only through its translation column, and vek's own arithmetic (normalise d, cross, normalise, dot) neither overflows nor underflows at these magnitudes, so the bound of the float tier applies per entry: linear part vs the exact Gram-Schmidt reference of the unscaled triple within 256 eps kappa, translation vs reference * 2^kp within 256 eps kappa |eye|_1 2^kp, last row exactly (0,0,0,1); a rewrite that multiplies squared lengths, or compares a length with an epsilon, overflows / misfires here; the deprecated aliases may match either handedness; non-trivial: all";
+    rep.section("look-at: f64 at extreme magnitudes (positions and up scaled by powers of two)", rule_fs, true, false, look_float_scaled::<f64>);
+    rep.section("look-at: f32 at extreme magnitudes (positions and up scaled by powers of two)", rule_fs, true, false, look_float_scaled::<f32>);
+
+    // ---- 9. operand forms ---------------------------------------------------------------------------
+    rep.section("operand forms: every builder called with Vec4, [T; 3], (T, T, T) and Vec2 operands",
+        "the eight builders are generic in V: Into<Vec3<T>> and their doc examples pass Vec4; the sections above pass Vec3 only. Look-at: every non-degenerate triple of eye in {(-2,1,0),(0,0,0),(1,-2,1)}, target-eye in {-1..1}^3 \\ 0 + six longer vectors, up in {-1..1}^3 + six longer vectors, as Vec4 with w = (1,1,0) (point, point, direction) and with junk w = (7,-3,5), as arrays, as tuples, and (triples in the z = 0 plane only) as Vec2; six builders x both layouts on the exact surd field; the decoded matrix must equal the Gram-Schmidt reference (either handedness for the deprecated aliases). Change of basis: Rodrigues bases (quick: every 8th axis; thorough: all) x 12 angles x mirror, origin (2,-1,3/2), as Vec4 (w = 1,0,-4,9), arrays and tuples, both layouts: matrix == [i j k | o] resp. [i;j;k | -i.o,-j.o,-k.o] built from the definition; non-trivial: all",
+        true, false, operand_forms);
+
+    // ---- 10. change of basis on float / integer element types ---------------------------------------
+    let rule_bf = "bases = columns of the reference Rodrigues matrix (axes of matx::unit_axes(), quick: every 4th; 12 rational angles; and the mirror image k -> -k), rounded once to the float type; origins {-1,0,2}^3 times 2^k (f32: k in {-40,-3,0,40}; f64: {-400,-3,0,400}; thorough adds +-20/+-200 and 7); both layouts. local_to_basis: its 12 inputs must sit unchanged (==) in the columns i, j, k, origin, last row (0,0,0,1) - the bound T: Zero + One admits no arithmetic. basis_to_local vs the inverse of the rigid map from the definition, [R^T | -R^T o]: rows within 256 eps of i, j, k; translation within 256 eps * sum |row_c o_c| of the exactly computed (rationals from the float inputs) -row.o; last row exactly (0,0,0,1); the dot product scales exactly with 2^k, so the bound is scale-free; an epsilon snap or guard misfires on the tiny origins; non-trivial: all";
+    rep.section("change of basis: f64 tier (rounded rational rotations, origins over 800 binary orders of magnitude)", rule_bf, true, false, basis_float::<f64>);
+    rep.section("change of basis: f32 tier (rounded rational rotations, origins over 80 binary orders of magnitude)", rule_bf, true, false, basis_float::<f32>);
+    rep.section("local_to_basis on integer element types (i32, i64, u8)",
+        "local_to_basis only needs T: Zero + One, so integers are admissible element types: each of the 12 input slots takes each value of the type's alphabet (incl. MIN, MAX, 0, 1) while the other slots hold rotating fillers; both layouts; the decoded matrix must be [i j k | origin; 0 0 0 1] entry for entry; non-trivial: all", true, false, |s| {
+        s.require_classes(&["i32", "i64", "u8"]);
+        l2b_integers::<i32>(s); l2b_integers::<i64>(s); l2b_integers::<u8>(s);
+        s.sample(json!({"type": "u8", "origin": [255, 0, 1], "i": [2, 9, 128], "j": [255, 0, 1], "k": [2, 9, 128]}));
     });
 
     rep.extra("violations_counted_but_not_materialised", json!(NOT_MATERIALISED.load(Relaxed)));
